@@ -453,6 +453,18 @@ func supervise(prop, tier string) int {
 					}
 				}
 				res, crashed, text, err := p.call(request{Cmd: "run", Property: prop, Seed: seed, Run: run, Tier: tier}, 60*time.Second)
+				if err != nil && strings.HasPrefix(err.Error(), "watchdog") {
+					// a stalled machine (a VM snapshot, a burst of other load) makes every worker miss its deadline at
+					// once: give the run a second, longer chance in a fresh worker before calling it harness trouble
+					p.stop()
+					p = nil
+					mu.Lock()
+					stats["watchdog_retries"]++
+					mu.Unlock()
+					if p, err = startProc(d.Race); err == nil {
+						res, crashed, text, err = p.call(request{Cmd: "run", Property: prop, Seed: seed, Run: run, Tier: tier}, 5*time.Minute)
+					}
+				}
 				if err != nil {
 					mu.Lock()
 					harnessEr = append(harnessEr, fmt.Sprintf("run %d: %v", run, err))
